@@ -1,4 +1,4 @@
-From KV Require Import Base.Prelude Base.Exn Base.Bytes Model.Data Model.Xml.
+From KV Require Import Base.Prelude Base.Exn Base.Bytes Model.Data Model.Xml Model.XmlTree.
 
 (* Python-shaped view of a model value: {"attrs": {...}, "value": v} is an ordinary dict *)
 Definition ATTRS : text := [97;116;116;114;115].
@@ -39,7 +39,10 @@ Inductive case :=
 | CTag (uniw : list Z) (x : text) (impl : res (text * option (list (text * text)) * Z))
 | CAttrs (uniw : list Z) (s : text) (impl : res (list (text * text)))
 | CEnd (x : text) (start : Z) (name : text) (impl : res (Z * Z))
-| CStrip (s : text) (impl : text).
+| CStrip (s : text) (impl : text)
+(* a real document as a plain-form tree: the premises of reader_extracts_tree hold for it, it is the tree's serialisation, and the
+   real reader returned the tree's data *)
+| CTree (prolog : text) (t : tree) (doc : text) (impl : val).
 
 Definition attrs_eqb (a b : list (text * text)) : bool :=
   val_eqb (VNode (map (fun kv => (fst kv, VStr (snd kv))) a)) (VNode (map (fun kv => (fst kv, VStr (snd kv))) b)).
@@ -80,4 +83,7 @@ Definition check (c : case) : Z :=
       | _, _ => 1
       end
   | CStrip s impl => if text_eqb (strip s) impl then 0 else 1
+  | CTree prolog t doc impl =>
+      if negb (wf t) then 2 else if negb (Nat.leb (height t) 5) then 3 else if negb (text_eqb (prolog ++ ser t) doc) then 4
+      else if val_eqb (to_py (VNode [(tname t, val_of t)])) impl then 0 else 1
   end.
